@@ -56,7 +56,7 @@ impl TimeFormat {
             }
             Self::Strftime(format) => {
                 // Handle a special case
-                let custom_format = format.replace("%+", "%Y-%m-%d+%H:%M:%S%.f0");
+                let custom_format = format.replace("%+", "%Y-%m-%d+%H:%M:%S.%f0");
                 match super::time::to_datetime(time) {
                     Some(utc) => utc.with_timezone(&Local).format(&custom_format).to_string(),
                     None => super::time::seconds_since_epoch(time).0.to_string(),
